@@ -443,6 +443,41 @@ Proof.
   intros X; inversion X; subst; split; auto.
 Qed.
 
+(* item 2, spelled out for readonly constraints *)
+Lemma markd_spec c s :
+  vars (markd c s) = vars s /\ csets (markd c s) = csets s /\ sched (markd c s) = sched s /\
+  forall c', constr_of (markd c s) c' = constr_of s c' \/
+             (c' = c /\ constr_of (markd c s) c' = done_of (constr_of s c)).
+Proof. repeat split. apply constr_of_markd. Qed.
+
+Theorem fulfill_readonly n c s : readonly_constr s c ->
+  match fulfill H n c s with
+  | MOk b s' => (b = k_done (constr_of s c) /\ s' = s) \/ (b = true /\ s' = markd c s)
+  | MEr e s' => s' = s /\ (e = EConstraintViolation \/ e = EFuel) /\
+                (4 <= n -> e = EConstraintViolation)
+  end.
+Proof.
+  intros R. rewrite (fulfill_pure n c s (readonly_pureK s c R)).
+  destruct (pfc n s (constr_of s c)) as [e| |] eqn:Ep; auto.
+  split; [reflexivity|]. eapply pfc_readonly_err; eauto.
+Qed.
+
+Theorem fulfill_readonly_vars n c s s2 : pureK (constr_of s c) ->
+  vars s2 = vars s ->
+  k_elim (constr_of s2 c) = false ->
+  k_ref (constr_of s2 c) = k_ref (constr_of s c) ->
+  k_alts (constr_of s2 c) = k_alts (constr_of s c) ->
+  k_strict (constr_of s2 c) = k_strict (constr_of s c) ->
+  forall e, (exists s', fulfill H n c s = MEr e s') <-> (exists s', fulfill H n c s2 = MEr e s').
+Proof.
+  intros P Ev El Er Ea Es e.
+  assert (P2 : pureK (constr_of s2 c)).
+  { split; [exact El|]. rewrite Ea. apply P. }
+  rewrite (fulfill_pure n c s P), (fulfill_pure n c s2 P2).
+  rewrite (pfc_vars n s2 s (constr_of s2 c) (constr_of s c) Ev Er Ea Es).
+  destruct (pfc n s (constr_of s c)); split; intros (s' & X); inversion X; subst; eauto.
+Qed.
+
 (* ------------------------------------------------------------------ *)
 (* one re-check step of check_constraints, in closed form               *)
 (* ------------------------------------------------------------------ *)
